@@ -160,17 +160,20 @@ PROPS["C10"] = {
 
 PROPS["C13"] = {
     "props_files": ["Props/C13.v"],
-    "go_tests": ["TestVerifFlight", "TestVerifFlightRecycle", "TestVerifStore"],
-    "impl_only_traces": ["flightrecycle"],
+    "go_tests": ["TestVerifFlight", "TestVerifFlightRecycle", "TestVerifStore", "TestVerifLateJoiner"],
+    "impl_only_traces": ["flightrecycle", "latejoiner"],
     "project_codes": {"store": ["8"]},
     "monitor_tags": ["C13"],
     "level": "proof",
     "rule": "scripted schedules on the real Group.Do: callers entering on 3 keys while loads are in flight (the loader is the leader's yield point, "
             "joiners are detected through the record's dups counter), loads ending with ok / error / panic / Goexit, call records being re-issued "
-            "from the pool across consecutive loads; non-trivial = >= 3 steps; distinct = sha1 of the schedule",
-    "trusted_base": [KERNEL, EXTRACT, HARNESS,
+            "from the pool across consecutive loads; in 40% of the loads the leader is parked (hook H10) between the end of its function and the cleanup of its call and "
+            "one or two callers arrive in that window; in half of the loads the function forgets its key first, as LoadingStore.Get does (they then lead, otherwise they join); "
+            "plus TestVerifLateJoiner on real loading stores (plain and hybrid): Delete of the freshly loaded key and a new loading Get inside that window; "
+            "non-trivial = >= 3 steps; distinct = sha1 of the schedule",
+    "trusted_base": [KERNEL, EXTRACT, HARNESS, "hook H10 (schedule point before the cleanup of a finished singleflight call)",
                      "modelled, not verified: sync.WaitGroup / sync.Mutex / sync.Pool (the pool may hand out any record that was put back), panics and Goexit as outcome codes"],
-    "assumptions": ["callers that arrive between the end of the loader and the table cleanup are not scheduled by the harness (needs a hook; see DESIGN F17)"],
+    "assumptions": ["the Forget of the leader's function and the release of the shard lock are one step of the model (the Forget runs under the shard lock; a caller that has not yet looked the key up will find the stored value)"],
     "explanation": "single-flight invariants over all schedules of the model; results per caller compared with the real Group",
 }
 
@@ -314,9 +317,9 @@ PROPS["C02"]["go_tests"] = ["TestVerifStore", "TestVerifWaitFullQueue"]
 PROPS["C02"]["impl_only_traces"] = ["waitfull"]
 for _p in ("C11", "C12", "C04"):
     PROPS[_p]["timeout"] = {"quick": 900, "thorough": 3000}
-PROPS["C01"]["go_tests"] = ["TestVerifStore", "TestVerifPoolAlias", "TestVerifRangeConcurrent", "TestVerifRBMutex"]
-PROPS["C01"]["impl_only_traces"] = ["poolalias", "rangeconc"]
-PROPS["C01"]["rule"] = STORE_RULE + "; plus, for the entry-pool configurations (outside the model), concurrent runs of 8 goroutines on pool-enabled plain and loading stores of 4..13 entries over 48 keys, checking that every value read for a key was written or loaded for that key; and Range racing Delete / Set of the keys of the shard it is visiting (plain and pool): no visit of a key whose Delete has returned, no value older than a returned Set"
+PROPS["C01"]["go_tests"] = ["TestVerifStore", "TestVerifPoolAlias", "TestVerifRangeConcurrent", "TestVerifRBMutex", "TestVerifLateJoiner"]
+PROPS["C01"]["impl_only_traces"] = ["poolalias", "rangeconc", "latejoiner"]
+PROPS["C01"]["rule"] = STORE_RULE + "; plus, for the entry-pool configurations (outside the model), concurrent runs of 8 goroutines on pool-enabled plain and loading stores of 4..13 entries over 48 keys, checking that every value read for a key was written or loaded for that key; and Range racing Delete / Set of the keys of the shard it is visiting (plain and pool): no visit of a key whose Delete has returned, no value older than a returned Set; and a loading Get that starts after a Delete of a freshly loaded key has returned, while the leader of that load is parked (hook H10) before the cleanup of its singleflight call: it must load again"
 PROPS["C01"]["assumptions"] = ["the theorems cover the entry pool disabled; with the pool enabled only the 'never a value of another key' clause is exercised, by a concurrent harness (testing)"]
 
 # store-level part of C04 / C03: ticks and reads of the real Store under the deterministic driver
